@@ -219,6 +219,28 @@ def flows_oracle(ctx):
 
 def replay(ctx, rep):
     c = rep["case"]
+    if "layer" in c:   # a real MaskedAutoregressive / Coupling layer case of harness/autoreg.py
+        from harness import autoreg
+
+        return autoreg.replay_case(ctx, rep)
+    if isinstance(c.get("spec"), (list, tuple)):   # a combinator tree of harness/bijinv.py (built by harness.c08.build): both round trips on the recorded point
+        from harness import c08
+
+        jnp = c08.fj()["jnp"]
+        b = c08.build(c["spec"])
+        x = jnp.asarray(np.array(c["x"], dtype=float).reshape(c["x_shape"]))
+        cc = None if c.get("c") is None else jnp.asarray(np.array(c["c"], dtype=float).reshape(c["c_shape"]))
+        ok = True
+        for first, second in (("transform", "inverse"), ("inverse", "transform")):
+            try:
+                mid = getattr(b, first)(x, cc)
+                back = np.asarray(getattr(b, second)(mid, cc), dtype=float)
+            except NotImplementedError:
+                continue
+            good = bool(np.all(np.isfinite(np.asarray(mid)))) and np.allclose(back, np.asarray(x), rtol=1e-9, atol=1e-9)
+            print(f"{second}({first}(x)) == x:", good)
+            ok = ok and (good or not np.all(np.isfinite(np.asarray(mid))))
+        return ok
     if "spec" not in c:
         print("flow-level replay: re-run ./check C01 (the flows oracle is seeded)")
         return False
